@@ -77,7 +77,7 @@ func GenModule(t *rapid.T, noFail bool) Module {
 		if i == failAt {
 			line("boom_%d = 1 // 0", i)
 		}
-		switch vk.Uniform(t, 18) {
+		switch vk.Uniform(t, 19) {
 		case 0, 1:
 			v := fresh("v")
 			if vk.Chance(t, 0.12) {
@@ -240,6 +240,19 @@ func GenModule(t *rapid.T, noFail bool) Module {
 			v := fresh("v")
 			line("%s = {(1, 2): [%s], struct(q = (1,)): {\"in\": %s}}", v, val(), val())
 			vars = append(vars, ModVar{v, "dict"})
+		case 18:
+			// closures that capture themselves or each other: freezing must terminate
+			mk, v := fresh("mkself"), fresh("selfref")
+			line("def %s():", mk)
+			line("    box = [%s]", val())
+			line("    def g():")
+			line("        return (g, h, box)")
+			line("    def h(x = box):")
+			line("        return g")
+			line("    box.append(h)")
+			line("    return g")
+			line("%s = %s()", v, mk)
+			vars = append(vars, ModVar{v, "func"})
 		case 17:
 			// closure factory, two levels deep: every later call of the factory makes a new (unfrozen) function
 			// that shares the frozen cell of the enclosing function's variable
